@@ -16,8 +16,8 @@ EXPLANATION = (
     "through the image triple and preserve sides; inversion is an involution independent of the square root, negates the "
     "cross-ratio (complement lies on the other side, complement twice is the identity); the mask plumbing of contains/intersects "
     "gives every pair its case-table answer (elementwise with NumPy's mask-assignment semantics, pairwise), with the pinned "
-    "intersects proved wrong.  PARTIAL: that the case-table inequalities characterise set containment/intersection is tested "
-    "(sampled set-theoretic reference), not proved.  Exact Q(i) correspondence of every formula + float oracles.")
+    "intersects proved wrong; the case table is proved to be the set-theoretic answer for circles in general position "
+    "(contains_logic / intersects_logic).  Fubini-Study constructions are oracle-tested only.  Exact Q(i) correspondence of every formula + float oracles.")
 ASSUMPTIONS = [
     "Fubini-Study constructions (QR factorisation, cos/sin/arctan/tan) are oracle-tested only",
     "general position: margins >= 0.1 between circles in the containment/intersection reference",
